@@ -294,10 +294,15 @@ fn next_bytes<'s>(
             true
         } else {
             let (next_state, action) = state_change(*state, b);
-            if next_state != State::Anywhere {
-                *state = next_state;
+            if is_printable_bytes(action, b) {
+                // Leave the state for the printable run below
+                true
+            } else {
+                if next_state != State::Anywhere {
+                    *state = next_state;
+                }
+                false
             }
-            is_printable_bytes(action, b)
         }
     });
     let (_, next) = bytes.split_at(offset.unwrap_or(bytes.len()));
@@ -310,15 +315,18 @@ fn next_bytes<'s>(
             }
             false
         } else {
-            let (next_state, action) = state_change(State::Ground, b);
-            if next_state != State::Anywhere {
-                *state = next_state;
-            }
-            if *state == State::Utf8 {
-                utf8parser.add(b);
+            let (next_state, action) = state_change(*state, b);
+            if is_printable_bytes(action, b) {
+                if next_state != State::Anywhere {
+                    *state = next_state;
+                }
+                if *state == State::Utf8 {
+                    utf8parser.add(b);
+                }
                 false
             } else {
-                !is_printable_bytes(action, b)
+                // Leave the byte and the state for the next skip phase
+                true
             }
         }
     });
